@@ -676,6 +676,9 @@ func (g *gen) generate() {
 	// 7. histories: the same context URLs and type resolving differently through two loaders
 	g.runAll(g.generateHistory(), func(int) bool { return true })
 
+	// 8. subject identifiers that are not DIDs
+	g.runAll(g.generateNonDID(schs), func(int) bool { return true })
+
 	// observations that are not failures (readings recorded in coq/Claim/README_Binding.md)
 	var optAcc, optAll, idAcc, o7rej, e2eOpt int
 	for _, r := range g.recs {
